@@ -127,6 +127,13 @@ def falsify_codomain(chk, budget, max_bits=5):
             for s, es in G.enum_exprs(3 if bits > 2 else 4, consts[:5] if bits > 2 else consts).items():
                 for e in es:
                     yield e, bits
+        fam = []
+        for bits in (2, 3):
+            m = 1 << bits
+            fam += [(e, bits) for e in G.two_op_family(sorted({0, 1, 2, 3, m - 1}))]
+        rng.shuffle(fam)
+        for e, bits in fam:
+            yield e, bits
         while True:
             bits = rng.randint(0, max_bits)
             yield G.gen_expr(rng, rng.randint(2, 5), G.boundary_consts(bits)), bits
@@ -165,6 +172,13 @@ def falsify_period(chk, budget, max_bits=6):
             for s, es in G.enum_exprs(3 if bits > 2 else 4, consts[:5] if bits > 2 else consts).items():
                 for e in es:
                     yield e, bits
+        fam = []
+        for bits in (2, 3, 4):
+            m = 1 << bits
+            fam += [(e, bits) for e in G.two_op_family(sorted({0, 1, 2, 3, m - 1}))]
+        rng.shuffle(fam)
+        for e, bits in fam:
+            yield e, bits
         while True:
             bits = rng.randint(0, max_bits)
             yield G.gen_expr(rng, rng.randint(2, 5), G.boundary_consts(bits), pmod=0.4), bits
@@ -303,6 +317,14 @@ def stream_parse(chk, tok_len, char_len, n_random):
 class RefSyntaxError(Exception):
     pass
 
+def big_int(digits):
+    """decimal → int without tripping CPython's 4300-digit limit (which must stay in force for the code under test)"""
+    v = 0
+    for k in range(0, len(digits), 4000):
+        chunk = digits[k:k + 4000]
+        v = v * (10 ** len(chunk)) + int(chunk)
+    return v
+
 def ref_lex(s):
     i, out = 0, []
     while i < len(s):
@@ -315,7 +337,7 @@ def ref_lex(s):
             j = i
             while j < len(s) and s[j] in '0123456789':
                 j += 1
-            out.append(('num', int(s[i:j]))); i = j; continue
+            out.append(('num', big_int(s[i:j]))); i = j; continue
         two = s[i:i + 2]
         if two in ('==', '!=', '<=', '>=', '&&', '||'):
             out.append((two,)); i += 2; continue
@@ -458,6 +480,8 @@ def _falsify_parse_eval(chk, budget, strings=None, only_pool=False):
     pool = list(strings or [])
     rng.shuffle(pool)
     pool.sort(key=len)
+    if not only_pool:
+        pool.insert(0, 'n == ' + '1' * 4301)      # corpus: the recorded int() digit-limit witness always runs
     def cands():
         for s in pool:
             yield s
@@ -470,8 +494,6 @@ def _falsify_parse_eval(chk, budget, strings=None, only_pool=False):
         if tried >= budget:
             break
         tried += 1
-        if sum(ch.isdigit() for ch in s) > 4000:
-            continue
         try:
             ref = ref_parse(s)
         except RefSyntaxError:
@@ -483,6 +505,15 @@ def _falsify_parse_eval(chk, budget, strings=None, only_pool=False):
             ex, got = None, None
         except RecursionError:
             continue
+        except ValueError as exc:
+            import re as _re
+            if _re.search(r'[0-9]{4301}', s):
+                if chk.violation('int() digit limit in the plural expression parser',
+                                 {'kind': 'int-digit-limit', 'input_prefix': s[:40], 'input_length': len(s), 'exception': repr(exc)[:200],
+                                  'replay': "lib.gettext.parse_plural_expression('n == ' + '1' * 4301)"}, key='C04:int-digit-limit'):
+                    return {'kind': 'parse-crash', 'input': s[:200], 'exception': repr(exc)[:200]}, tried
+                continue
+            return {'kind': 'parse-crash', 'input': s, 'exception': repr(exc)}, tried
         except Exception as exc:
             return {'kind': 'parse-crash', 'input': s, 'exception': repr(exc)}, tried
         if ref != got:
